@@ -156,8 +156,13 @@ impl Path {
     }
 
     pub(crate) fn set_max_branches(&mut self, max_branches: usize) {
+        // The capacity of the branch store is the branch limit (see
+        // `assert_path_len!`). A path loaded from a checkpoint has whatever
+        // capacity deserialization left it with, which may be smaller or
+        // larger than the limit.
         self.branches
             .reserve_exact(max_branches - self.branches.len());
+        self.branches.shrink_to(max_branches);
     }
 
     /// Returns `true` if the execution has reached a point where the known path
